@@ -470,7 +470,8 @@ where
 
         let stored_to = to.min(stored_len);
         let mut hole_iter = self.holes().range(from..to).peekable();
-        let mut update_iter = self.updated().range(from..stored_to).peekable();
+        // `from` may lie past the stored part (BTreeMap::range panics on start > end).
+        let mut update_iter = self.updated().range(from.min(stored_to)..stored_to).peekable();
 
         let mut byte_off = from * Self::SIZE_OF_T;
         for i in from..stored_to {
@@ -519,7 +520,8 @@ where
 
         let stored_to = to.min(stored_len);
         let mut hole_iter = self.holes().range(from..to).peekable();
-        let mut update_iter = self.updated().range(from..stored_to).peekable();
+        // `from` may lie past the stored part (BTreeMap::range panics on start > end).
+        let mut update_iter = self.updated().range(from.min(stored_to)..stored_to).peekable();
 
         let mut byte_off = from * Self::SIZE_OF_T;
         for i in from..stored_to {
